@@ -68,13 +68,30 @@ eval_variable_simple = Fn(FEV, "eval_variable_simple", slot="resolver", ret="res
     closures={1: ("|s: util::ItemRef<asm::Symbol>| -> (r: Option<&asm::Symbol>)\n            requires s.0 < defs.symbols.defs@.len() ==> defs.symbols.defs@[s.0 as int] is Some\n            ensures (match r { Some(x) => s.0 < defs.symbols.defs@.len() && defs.symbols.defs@[s.0 as int] == Some(*x), None => s.0 >= defs.symbols.defs@.len() })\n       ", "")},
 )
 
+check_unused_defines = Fn("src/asm/mod.rs", "check_unused_defines", slot="asm", ret="res", key="check_unused_defines", props=["C16", "C03"],
+    requires=[C("table_wf", "decls.symbols.wf()", ["C03"])],
+    ensures=[
+        C("a_define_that_names_no_declaration_is_an_error", "(res is Err) == crate::asm::resolver::some_define_unused(decls, opts.driver_symbol_defs@, opts.driver_symbol_defs@.len() as int)", ["C16"]),
+        C("err_is_loud", "res is Err ==> final(report).msgs() > old(report).msgs()", ["C03", "C16"]),
+        C("ok_is_clean", "res is Ok ==> final(report).msgs() == old(report).msgs()", ["C03"]),
+    ],
+    rewrites=[Rewrite(r"symbol_def\.name\s*\.split\(\"\.\"\)\s*\.collect::<Vec<_>>\(\)", "crate::asm::resolver::verif_split_dots(&symbol_def.name)", regex=True, rule="R16",
+                      why="`split(\".\").collect()` -> prelude wrapper; the components are an uninterpreted function of the name")],
+    for_to_while=[1],
+    loops={1: Loop(invariant=[
+        C("vec", "verif_vec_1@ == opts.driver_symbol_defs@ && verif_next_1 <= verif_vec_1@.len() && decls.symbols.wf()"),
+        C("messages", "report.msgs() >= old(report).msgs() && (had_error ==> report.msgs() > old(report).msgs()) && (!had_error ==> report.msgs() == old(report).msgs())"),
+        C("error_iff_an_earlier_define_is_unused", "had_error == crate::asm::resolver::some_define_unused(decls, opts.driver_symbol_defs@, verif_next_1 as int)"),
+    ], decreases="verif_vec_1@.len() - verif_next_1")},
+)
+
 UNIT = Unit(
     "U-evalvar", "u_evalvar/skeleton.rs",
     items=ur.COMMON + SYMS + [
         Type(FX, "struct", "EvalVariableQuery", slot="expr"),
         ur.can_guess.as_stub("resolver"), ur.eval_address.as_stub("resolver"),
-        uco.new_global, maybe_get, eval_builtin_symbol, eval_variable, eval_variable_certain, eval_variable_simple,
+        uco.new_global, maybe_get, eval_builtin_symbol, eval_variable, eval_variable_certain, eval_variable_simple, check_unused_defines,
     ],
-    serves=["C15", "C03"],
+    serves=["C15", "C03", "C16"],
     description="asm::resolver::eval_variable: what a symbol reference evaluates to",
 )
